@@ -238,3 +238,46 @@ def _removes_link(loop: ast.While, cursor: str) -> Optional[str]:
 
 def link_walk_guard(loop: ast.While, cursor: str, fn: ast.AST) -> Optional[str]:
     return _counter_bound(loop) or _visited_guard(loop, cursor, fn) or _removes_link(loop, cursor)
+
+
+def stale_loop_variable_reads(f: ast.AST):
+    """-> [(later_loop, sorted(names))]: a loop of f that reads a name whose only bindings in f are the targets of earlier, already
+    finished loops (not enclosing it): every iteration sees that earlier loop's LAST element.  A bare annotation (`x: T`) is not a binding."""
+    from .core import own_nodes
+
+    loops_ = [n for n in own_nodes(f) if isinstance(n, (ast.For, ast.AsyncFor))]
+    out = []
+    if len(loops_) < 2:
+        return out
+    args = getattr(f, "args", None)
+    params = {a.arg for a in ast.walk(args) if isinstance(a, ast.arg)} if args is not None else set()
+    for l2 in sorted(loops_, key=lambda n: n.lineno):
+        earlier = [l1 for l1 in loops_ if l1.lineno < l2.lineno and not any(l2 is x for x in ast.walk(l1))]
+        if not earlier:
+            continue
+        bound_elsewhere = set(params)
+        for n in own_nodes(f):
+            if isinstance(n, ast.Name) and isinstance(n.ctx, ast.Store):
+                if any(any(n is x for x in ast.walk(l1.target)) for l1 in earlier):
+                    continue
+                bound_elsewhere.add(n.id)
+        # bare annotations are Store-context names without a value: not bindings
+        for n in own_nodes(f):
+            if isinstance(n, ast.AnnAssign) and n.value is None and isinstance(n.target, ast.Name):
+                others = [x for x in own_nodes(f) if isinstance(x, ast.Name) and isinstance(x.ctx, ast.Store) and x.id == n.target.id and x is not n.target
+                          and not any(any(x is y for y in ast.walk(l1.target)) for l1 in earlier)]
+                if not others:
+                    bound_elsewhere.discard(n.target.id)
+        stale = set()
+        for l1 in earlier:
+            for nm in names(l1.target, ast.Store):
+                if nm in bound_elsewhere or nm in names(l2.target, ast.Store):
+                    continue
+                # a loop nested in l2 (or l2 itself) that re-binds nm hides it
+                rebound = any(isinstance(x, (ast.For, ast.AsyncFor, ast.comprehension)) and nm in names(x.target, ast.Store) for x in ast.walk(l2) if x is not l2)
+                reads = [x for x in ast.walk(l2) if isinstance(x, ast.Name) and x.id == nm and isinstance(x.ctx, ast.Load)]
+                if reads and not rebound:
+                    stale.add(nm)
+        if stale:
+            out.append((l2, sorted(stale)))
+    return out
